@@ -109,7 +109,7 @@ def ipaddrOrHostname (v : Str) : R Str := do
   let r ← (regexConv Gen.ipaddrRx v).map lower
   if r.contains ':' then (if pton6 r then pure r else throw .valueError) else pure r
 
-/-- acceptance grammar of `float(str)`: returns the text `float` would parse (stripped), values stay symbolic -/
+/-- acceptance grammar of `float(str)`: returns the text `float` would parse (without the surrounding white space `float` skips, `stripInt`), values stay symbolic -/
 def digitPart : Str → Option Str      -- consumes digit (_? digit)*, returns the rest
   | [] => none
   | c :: t => if pyDigit c then some (go t) else none
@@ -138,12 +138,12 @@ def floatBody (s : Str) : Bool :=
     | _ => false
 
 def floatOk (s0 : Str) : Bool :=
-  let s := strip s0
+  let s := stripInt s0
   let s1 := match s with | '+' :: x => x | '-' :: x => x | x => x
   let l := asciiLower s1
   if l == "inf".toList || l == "infinity".toList || l == "nan".toList then true
   else floatBody s1
 
-def floatConv (s : Str) : R Val := if floatOk s then .ok (.float (strip s)) else .error .valueError
+def floatConv (s : Str) : R Val := if floatOk s then .ok (.float (stripInt s)) else .error .valueError
 
 end ZCV.DT
